@@ -109,6 +109,22 @@ def run(case, ctx):
             viols.append(viol("convolve-not-linear-in-image", f"conv(2A-B,F) != 2conv(A,F)-conv(B,F): {key}", cfg=cfg))
         if err_exact(o3, 2 * out - oF2) > 1e-4:
             viols.append(viol("convolve-not-linear-in-filter", f"conv(A,2F-G) != 2conv(A,F)-conv(A,G): {key}", cfg=cfg))
+    # operand representations: an integer-typed filter (a literal stencil) applied to a non-integer image, NumPy arrays
+    # handed over as they are - the R-monitor evaluates the definition on the values that were passed
+    if not viols and not case["i"] % 40 == 39:
+        try:
+            with contextlib.redirect_stdout(sink):
+                Aq = (A * 0.25 + 0.125).astype(np.float32)
+                oi = np.asarray(geom.convolve(D, jnp.asarray(Aq), jnp.asarray(F.astype(np.int32)), *opts))
+                on = np.asarray(geom.convolve(D, Aq, F.astype(np.float32), *opts))
+                evals += 2
+            wantq = rconv.convolve(D, Aq.astype(np.float64), F, is_torus if isinstance(is_torus, tuple) else (is_torus,) * D, stride, padding, lhs, rhs)
+            for nm, got in (("int32 filter", oi), ("NumPy operands", on)):
+                if got.shape != wantq.shape or err_exact(got, wantq) > 1e-4:
+                    viols.append(viol("convolve-operand-representation", f"convolve with {nm} and a quarter-integer image != definition (shape {got.shape} vs {wantq.shape}, err {err_exact(got, wantq) if got.shape == wantq.shape else 'n/a'}): {key}", cfg=cfg))
+        except Exception as e:
+            viols.append(viol(f"convolve-exception-{type(e).__name__}", f"convolve (int32 filter / NumPy operands) raised {type(e).__name__}: {str(e)[:300]} on {key}", cfg=cfg))
+        viols += _mon.take()
     # fused convolve-and-contract: filter order k + k3
     k3 = int(rng.integers(0, 2 if (k + 1 <= (2 if D == 3 else 3)) else 1))
     Fc = lattice(rng, (Cout, Cin) + fsp + (D,) * (k + k3), -2, 2)
